@@ -8,13 +8,13 @@ require (
 	github.com/cockroachdb/redact v1.1.5
 	github.com/gogo/googleapis v1.4.1
 	github.com/gogo/protobuf v1.3.2
+	github.com/gogo/status v1.1.0
 	github.com/pkg/errors v0.9.1
 	google.golang.org/grpc v1.56.3
 )
 
 require (
 	github.com/getsentry/sentry-go v0.27.0 // indirect
-	github.com/gogo/status v1.1.0 // indirect
 	github.com/golang/protobuf v1.5.3 // indirect
 	github.com/kr/pretty v0.3.1 // indirect
 	github.com/kr/text v0.2.0 // indirect
